@@ -2,7 +2,11 @@
 """Regenerate MANIFEST.json from tools/claims.json (per-property claim texts) and the props/ directory."""
 import json, os
 here = os.path.dirname(os.path.dirname(os.path.abspath(__file__)))
-claims = json.load(open(os.path.join(here, 'tools', 'claims.json')))
+claims = {}
+cd = os.path.join(here, 'tools', 'claims.d')
+for fn in sorted(os.listdir(cd)):
+    if fn.endswith('.json'):
+        claims[fn[:-5]] = json.load(open(os.path.join(cd, fn)))
 props = [json.loads(l) for l in open(os.path.join(here, 'properties.jsonl'))]
 checks, na = [], []
 for p in props:
